@@ -50,6 +50,7 @@ def csv_cases(draw, max_len=8):
         "batches": draw(st.lists(st.integers(1, 4), min_size=max_len, max_size=max_len)),
         "prescored": draw(st.sampled_from([0, 0, 1, 2, 3])),
         # an extra field may carry the name of a configured column ("Phenotype", "Fitness0", "Idx", "Agg")
+        "payload": draw(st.sampled_from(["", "", "", ",", ' "q" ', "line\nbreak", "cr\rcr", "crlf\r\n", "\r", ";\t'"])),
         "collide": draw(st.sampled_from([None, None, None, "Phenotype", "Fitness0", "Idx", "Agg"])),
     }
 
